@@ -360,7 +360,16 @@ func (ctx *Context) LoadNameWithDetail(name string, isRaw bool, useHook bool, de
 	// 先local再global
 	curCtx := ctx
 	for {
+		// 变量在外层作用域里找到时，computed 由那一层(curCtx)执行。那一层此刻是挂起的，它的算力计数
+		// 停在调用下来的那一刻；把读取方当前的计数带过去，执行完再带回来，否则这次执行的开销会在
+		// 读取方返回时被覆盖掉(&z2 = z1 读 z1 的开销不计入)，算力上限形同虚设
+		if curCtx != ctx && curCtx.NumOpCount < ctx.NumOpCount {
+			curCtx.NumOpCount = ctx.NumOpCount
+		}
 		ret := curCtx.LoadNameLocalWithDetail(name, isRaw, detail)
+		if curCtx != ctx && curCtx.NumOpCount > ctx.NumOpCount {
+			ctx.NumOpCount = curCtx.NumOpCount
+		}
 
 		if curCtx.Error != nil {
 			ctx.Error = curCtx.Error
